@@ -188,6 +188,7 @@ pub struct ExecOut {
     pub jobs_observed: u64,
     pub history_hashes: Vec<u64>,
     pub outcome_kinds: BTreeMap<String, u64>,
+    pub obs_digest: u64,
 }
 
 fn uid_check(css: &str) -> Option<String> {
@@ -284,7 +285,15 @@ pub fn execute(case: &SchedCase) -> ExecOut {
     }
     grass_compiler::verif::set_point_callback(None);
     let results = results.lock().unwrap().clone();
-    let mut out = ExecOut { violations: vec![], stats, jobs_observed: 0, history_hashes: vec![], outcome_kinds: BTreeMap::new() };
+    let mut out = ExecOut { violations: vec![], stats, jobs_observed: 0, history_hashes: vec![], outcome_kinds: BTreeMap::new(), obs_digest: 0 };
+    for tid in 0..nthreads {
+        for o in &results[tid] {
+            out.obs_digest = mix(out.obs_digest, hash_bytes(1, format!("{}|{:?}|{:?}|{}", o.observable, o.log, o.marks, o.ticks).as_bytes()));
+        }
+        for r in refs[tid].iter().flatten() {
+            out.obs_digest = mix(out.obs_digest, hash_bytes(2, format!("{}|{:?}", r.observable, r.log).as_bytes()));
+        }
+    }
     for tid in 0..nthreads {
         let mut hist = 0u64;
         for (k, o) in results[tid].iter().enumerate() {
@@ -410,6 +419,7 @@ fn exec_out_to_json(_case: &SchedCase, o: &ExecOut) -> Value {
         "jobs_observed": o.jobs_observed,
         "history_hashes": o.history_hashes.iter().map(|h| format!("{:x}", h)).collect::<Vec<_>>(),
         "outcome_kinds": o.outcome_kinds,
+        "obs_digest": format!("{:x}", o.obs_digest),
     })
 }
 
@@ -715,6 +725,9 @@ impl Engine for SchedEngine {
             }
             match run_case_forked(&case) {
                 Ok(out) => {
+                    res.fold(out.get("obs_digest").and_then(|d| d.as_str()).unwrap_or("").as_bytes());
+                    res.fold(out.get("switches").map(|s| s.to_string()).unwrap_or_default().as_bytes());
+                    res.fold(out.get("violations").map(|s| s.to_string()).unwrap_or_default().as_bytes());
                     res.bump("evaluations", 1);
                     res.bump("jobs_observed", out.get("jobs_observed").and_then(|x| x.as_u64()).unwrap_or(0));
                     res.bump(&format!("policy.{}", case.policy.name()), 1);
